@@ -172,9 +172,45 @@ func sharedOf[T any](key string, mk func() T) T {
 	return v
 }
 
+// Decorators. F and FF are interfaces: a program may wrap a library-made morphism in a struct of its own that embeds
+// it and overrides Apply (to count, trace, time). The wrapped value still is a Lift, Try or Pure morphism - the stage
+// has to treat it by what it embeds. One unshared morphism in three is decorated.
+type decoF[A, B any] struct {
+	pipe.F[A, B]
+	calls *int
+}
+
+func (d decoF[A, B]) Apply(a A) (B, error) { *d.calls++; return d.F.Apply(a) }
+
+type decoFF[A, B any] struct {
+	pipe.FF[A, B]
+	calls *int
+}
+
+func (d decoFF[A, B]) Apply(ctx context.Context, a A, out chan<- B) error {
+	*d.calls++
+	return d.FF.Apply(ctx, a, out)
+}
+
+type decoForkF[A, B any] struct {
+	fork.F[A, B]
+	calls *int
+}
+
+func (d decoForkF[A, B]) Apply(a A) (B, error) { return d.F.Apply(a) }
+
+func (w *world) decorated() bool {
+	c := w.c
+	return mix(len(c.Script)*3+len(c.Stage)+c.Cap, c.FSeed+99)%3 == 0
+}
+
 func pipeFW[A, B any](w *world, name string, m func(*world, A) (B, error)) pipe.F[A, B] {
 	if !w.shared() {
-		return pipeF(w.c.Mode, func(a A) (B, error) { return m(w, a) })
+		f := pipeF(w.c.Mode, func(a A) (B, error) { return m(w, a) })
+		if w.decorated() {
+			return decoF[A, B]{f, new(int)}
+		}
+		return f
 	}
 	return sharedOf("pipe/"+name+"/"+w.c.Mode, func() pipe.F[A, B] {
 		return pipeF(w.c.Mode, func(a A) (B, error) { return m(curWorld.Load(), a) })
@@ -183,7 +219,11 @@ func pipeFW[A, B any](w *world, name string, m func(*world, A) (B, error)) pipe.
 
 func forkFW[A, B any](w *world, name string, m func(*world, A) (B, error)) fork.F[A, B] {
 	if !w.shared() {
-		return forkF(w.c.Mode, func(a A) (B, error) { return m(w, a) })
+		f := forkF(w.c.Mode, func(a A) (B, error) { return m(w, a) })
+		if w.decorated() {
+			return decoForkF[A, B]{f, new(int)}
+		}
+		return f
 	}
 	return sharedOf("fork/"+name+"/"+w.c.Mode, func() fork.F[A, B] {
 		return forkF(w.c.Mode, func(a A) (B, error) { return m(curWorld.Load(), a) })
@@ -203,6 +243,9 @@ func pipeFFW(w *world) pipe.FF[int, int] {
 		return pipe.LiftF(arrow)
 	}
 	if !w.shared() {
+		if w.decorated() {
+			return decoFF[int, int]{mk(), new(int)}
+		}
 		return mk()
 	}
 	arrow = arrowOf
